@@ -41,6 +41,9 @@ type Property struct {
 	HangIsViolation bool
 	// Race: the worker must run under the race detector build.
 	Race bool
+	// RaceSide returns a range of cases that is additionally run under the race-detector build when one
+	// is available (side monitor; only race reports and worker deaths of that run are used).
+	RaceSide func(tier string) (from, to int)
 	// MinDistinct: below this many distinct non-trivial cases the run is inconclusive.
 	MinDistinct int
 	// Batches overrides the number of batches (0 = default by tier).
